@@ -239,15 +239,16 @@ func (o *sObj) read(data []byte) readResult {
 		var res readResult
 		res.panicked = guard(func() {
 			rd := bytes.NewReader(data)
+			src := srcOf(rd)
 			switch {
 			case o.vec != nil:
-				res.n, res.err = o.vec.ReadFrom(rd)
+				res.n, res.err = o.vec.ReadFrom(src)
 			case o.txt != nil:
-				res.n, res.err = o.txt.ReadFrom(rd)
+				res.n, res.err = o.txt.ReadFrom(src)
 			case o.meta != nil:
-				res.n, res.err = o.meta.ReadFrom(rd)
+				res.n, res.err = o.meta.ReadFrom(src)
 			default:
-				res.n, res.err = o.hyb.ReadFrom(rd)
+				res.n, res.err = o.hyb.ReadFrom(src)
 			}
 			res.rest = rd.Len()
 		})
